@@ -62,7 +62,7 @@ def build_case(c):
 def run_impl(c):
     req, gens_a = build_case(c)
     cfg = BaseOptimizationConfig(population_size=len(gens_a[0]), max_cycles=c["maxCycles"], fitness_error=c["fe"],
-                                 early_stopping=None if c["es"] is None else EarlyStopping(patience=c["es"][0], min_delta=c["es"][1]))
+                                 early_stopping=None if c["es"] is None else EarlyStopping(patience=c["es"][0], min_delta=c["es"][1]), **(c.get("extra_cfg") or {}))
     if c.get("inplace"):
         # the instance first runs under OTHER stop criteria; the caller then edits its configuration object in place
         # (`opt.configuration.max_cycles = …`): the next run must follow the edited values
@@ -115,6 +115,32 @@ def run_impl(c):
     return req, out, problems
 
 
+def unknown_base_fields():
+    """fields of BaseOptimizationConfig other than the four documented ones, with candidate values by declared type"""
+    out = []
+    for fname, f in BaseOptimizationConfig.model_fields.items():
+        if fname in ("population_size", "fitness_error", "max_cycles", "early_stopping"):
+            continue
+        ann = str(f.annotation)
+        if "bool" in ann:
+            cand = [True, False]
+        elif "int" in ann:
+            cand = [0, 1, 2, 3, 5]
+        elif "float" in ann:
+            cand = [0.0, 0.5, 1.0, 2.0]
+        else:
+            continue
+        ok = []
+        for v in cand:
+            try:
+                BaseOptimizationConfig(population_size=2, max_cycles=2, **{fname: v})
+                ok.append(v)
+            except Exception:  # noqa — rejected by the field's validator
+                pass
+        out.append((fname, ok))
+    return out
+
+
 def gen_cases(ctx):
     rng = ctx.rng
     L = 6 if ctx.thorough else 4
@@ -138,6 +164,12 @@ def gen_cases(ctx):
                     cases.append({"gens": gens, "dir": d, "maxCycles": mc, "fe": fe, "es": es, "kind": "single-agent history"})
                     if rng.random() < 0.15:
                         cases.append({"gens": gens, "dir": d, "maxCycles": mc, "fe": fe, "es": es, "kind": "in-place reconfiguration of a used instance", "inplace": True})
+    # configuration fields of the base configuration that this harness does not know (a tree may have grown a new knob): every such
+    # field is moved over a few values of its declared type; the criterion and the result shape are stated without it, so they must not move
+    for fname, cand in unknown_base_fields():
+        for v in cand:
+            for base in rng.sample(cases, min(len(cases), 40)):
+                cases.append(dict(base, extra_cfg={fname: v}, kind=f"unknown base-config field {fname}"))
     # multi-agent generations: ties in cost, pairs of dyadic fitness values, both directions
     for _ in range(3000 if not ctx.thorough else 30000):
         ps = rng.randrange(2, 5)
@@ -151,7 +183,7 @@ def gen_cases(ctx):
 
 
 def run(ctx):
-    ctx.prove(["PvModel.Props.C04", "PvModel.Props.T04", "PvModel.Props.R04"])
+    ctx.prove(["PvModel.Props.C04", "PvModel.Props.T04", "PvModel.Props.R04", "PvModel.Props.R00"])
     run_suite(ctx, "C04")
     termination_probe(ctx)
     real_runs(ctx)
@@ -163,7 +195,8 @@ def real_runs(ctx):
     rng = ctx.rng
     ctx.suites_run.append(oracles.SUITE)
     ctx.rule("real runs: every optimizer × {budget only, fitness_error near the rates it reaches, early stopping (patience 1..3 × min_delta 1e-4..10)} × min/max × serial(/thread): "
-             "shape, budget, rate = |1 − mean fitness| bit-exact, stop cycle = first cycle of the declarative criterion over the reported rates")
+             "shape, budget, rate = |1 − mean fitness| bit-exact, stop cycle = first cycle of the declarative criterion over the reported rates; "
+             "one run in three is the second run of its instance")
     js = []
     for name in optimizers.names():
         for i in range(3 if not ctx.thorough else 10):
@@ -174,6 +207,9 @@ def real_runs(ctx):
             kind = rng.choice(trace.CONT_KINDS)
             js.append({"name": name, "kind": kind, "specs": trace.task_specs(rng, kind, rng.choice([1, 2, 3, 5])), "objective": rng.choice(["sphere", "linear", "rastrigin"]),
                        "minmax": rng.choice(["min", "max"]), "seed": rng.randrange(1, 10 ** 6), "cfg": cfg, "mode": rng.choice(["serial", "serial", "thread"]), "trace": False})
+            if i == 0:
+                # the judged run is the SECOND one of its instance (same task, other seed): counters and rate histories of the first run must not show
+                js[-1]["warmup"] = {"seed": rng.randrange(1, 10 ** 6)}
     results = pmap(trace.run_traced, js)
     for r in results:
         ok = "result" in r
